@@ -168,8 +168,9 @@ def run(tier, seed, replay=None):
                 err_ = (o.get("r") or {}).get("err") or ""
                 cause = None
                 if m["flat"] and "<extra>" not in m["subset"] and not b_ok and s_ok and d_ok and \
-                        err_.startswith("no value supplied for ") and err_.split()[-1] in flat_idents(m, results[p["case"]]):
-                    cause = "flattened_extra_required_by_builder"
+                        err_.startswith("no value supplied for ") and \
+                        err_.split()[-1] in flat_map_idents(m, results[p["case"]]):
+                    cause = "flattened_extra_required_by_builder"   # only the typed additionalProperties MAP member
                 rep.violation("builder_outcome", site, dict(det, err=err_), cause=cause, **kw)
                 continue
             if b_ok and d_ok:
@@ -231,6 +232,16 @@ def run(tier, seed, replay=None):
                     rep.nontrivial.add(("bad", m["prop"], m["value"]))
     rep.notes["stage2"] = {"cases": len(run_.s2.order), "removed": len(run_.s2.removed)}
     return rep.finish(util.Findings(PROP, dict(common.PREDS)), min_nontrivial=30)
+
+
+def flat_map_idents(m, res):
+    """Flattened members that are maps (the `extra` member of typed additionalProperties), not Option<struct>."""
+    item = type_facts(res).get(m["type"]) or {}
+    out = []
+    for f in item.get("fields") or []:
+        if (f.get("serde") or {}).get("flatten") and not norm(f.get("ty") or "").startswith("::std::option::Option<"):
+            out.append(f["ident"])
+    return out
 
 
 def flat_idents(m, res):
